@@ -123,10 +123,190 @@ def history(make, holes, decoy, kw, queries, exports=True, fine=False):
     return shape, None
 
 
+
+# --------------------------------------------------------------------------------------------------
+# harness-only: a curved shape WITH user holes seen through every form the property relates
+#   cv.forms <K> shape-params k | <H> hole-params | … | Q lon lat lon lat …
+#   K: C circle (lon lat r), E ellipse (lon lat a b rot), R ring / wedge (lon lat inner outer amin amax)
+#   H: c circle (lon lat r), e ellipse (lon lat a b rot), b box (nw_lon nw_lat se_lon se_lat), p polygon (lon lat …)
+
+FORMS = ('contains_coordinate', 'to_polygon', 'to_polygon(k)', 'linear_rings', 'edges', 'copy', 'copy.to_polygon')
+
+
+def parse_forms(tokens):
+    from c09 import split_members
+    parts = split_members(tokens)
+    head, holes, qs = parts[0], [], []
+    for m in parts[1:]:
+        if m[0] == 'Q':
+            x = floats(m[1:])
+            qs = [(x[i], x[i + 1]) for i in range(0, len(x), 2)]
+        else:
+            holes.append((m[0], floats(m[1:])))
+    hv = floats(head[1:])
+    return head[0], hv[:-1], int(hv[-1]), holes, qs
+
+
+def build_forms(kind, v, holes):
+    from geostructures import GeoBox, GeoCircle, GeoEllipse, GeoPolygon, GeoRing
+    hs = []
+    for hk, h in holes:
+        if hk == 'c':
+            hs.append(GeoCircle(C(h[0], h[1]), h[2]))
+        elif hk == 'e':
+            hs.append(GeoEllipse(C(h[0], h[1]), h[2], h[3], h[4]))
+        elif hk == 'b':
+            hs.append(GeoBox(C(h[0], h[1]), C(h[2], h[3])))
+        else:
+            hs.append(GeoPolygon([C(h[i], h[i + 1]) for i in range(0, len(h), 2)]))
+    if kind == 'C':
+        return GeoCircle(C(v[0], v[1]), v[2], holes=hs)
+    if kind == 'E':
+        return GeoEllipse(C(v[0], v[1]), v[2], v[3], v[4], holes=hs)
+    return GeoRing(C(v[0], v[1]), v[2], v[3], v[4], v[5], holes=hs)
+
+
+def _even_odd(rings, ref, q):
+    """inside the first ring and inside none of the others (exact even-odd rule); '?' on a ring"""
+    qq = (_unwrap(ref, q[0]), q[1])
+    res = [pip_exact([(_unwrap(ref, c.longitude), c.latitude) for c in r], qq) for r in rings]
+    if '?' in res:
+        return '?'
+    return 'T' if res[0] == 'T' and all(x == 'F' for x in res[1:]) else 'F'
+
+
+def impl_forms(tokens):
+    kind, v, k, holes, qs = parse_forms(tokens)
+    shape = build_forms(kind, v, holes)
+    kw = _kw(k)
+    poly0, polyk, cp = shape.to_polygon(), shape.to_polygon(**kw), shape.copy()
+    cpoly = cp.to_polygon(**kw)
+    rings = shape.linear_rings(**kw)
+    edge_rings = [[e[0] for e in es] + [es[-1][1]] for es in shape.edges(**kw)]
+    n_user = len(holes) + (1 if kind == 'R' and v[4] == 0 and v[5] == 360 else 0)
+    counts = (len(rings) - 1, len(edge_rings) - 1, len(poly0.holes), len(polyk.holes), len(cpoly.holes), len(cp.holes) + n_user - len(holes))
+    if any(c != n_user for c in counts):
+        return 'HOLES:%s' % ','.join(map(str, counts)) + f':expected-{n_user}'
+    # GeoPolygon's own point-in-polygon on an outline that crosses the antimeridian is C01's subject, not judged here
+    # (the drawn rings themselves are: exact even-odd test in the plane un-wrapped around the centre)
+    lons = [c.longitude for c in rings[0]]
+    straddles = max(lons) - min(lons) > 180
+
+    def member(poly, c):
+        return '?' if straddles else ('T' if poly.contains_coordinate(c) else 'F')
+    out = []
+    for q in qs:
+        c = C(*q)
+        out.append(''.join((
+            'T' if shape.contains_coordinate(c) else 'F',
+            member(poly0, c),
+            member(polyk, c),
+            _even_odd(rings, v[0], q),
+            _even_odd(edge_rings, v[0], q),
+            'T' if cp.contains_coordinate(c) else 'F',
+            member(cpoly, c))))
+    return ' '.join(out)
+
+
+def hole_truth(hk, h, q, ref):
+    """'T' well inside the hole, 'F' well outside, '?' within 25 % of its size of its boundary (the hole is drawn as a k-gon)"""
+    if hk in ('c', 'e'):
+        d = G.gc_dist(h[0], h[1], q[0], q[1])
+        r = h[2] if hk == 'c' or d < 1e-6 else ell_r(h[2], h[3], math.radians(G.azimuth(h[0], h[1], q[0], q[1]) - h[4]))[0]
+        return 'T' if d < 0.55 * r else ('F' if d > 1.25 * r else '?')
+    if hk == 'b':
+        w, n, e, s_ = h[0], h[1], h[2], h[3]
+        x, y = _unwrap(ref, q[0]), q[1]
+        w, e = _unwrap(ref, w), _unwrap(ref, e)
+        mx, my = 0.25 * (e - w), 0.25 * (n - s_)
+        if w + mx < x < e - mx and s_ + my < y < n - my:
+            return 'T'
+        return 'F' if (x < w - mx or x > e + mx or y < s_ - my or y > n + my) else '?'
+    pts = [(_unwrap(ref, h[i]), h[i + 1]) for i in range(0, len(h), 2)]
+    cx, cy = sum(p[0] for p in pts) / len(pts), sum(p[1] for p in pts) / len(pts)
+    x, y = _unwrap(ref, q[0]), q[1]
+
+    def scaled(f):
+        ring = [(cx + f * (p[0] - cx), cy + f * (p[1] - cy)) for p in pts]
+        return pip_exact(ring + [ring[0]], (x, y))
+    if scaled(0.75) == 'T':
+        return 'T'
+    return 'F' if scaled(1.25) == 'F' else '?'
+
+
+def spec_forms(tokens):
+    """definition: inside the curve (judged only well away from it: the drawn forms are k-gons) and in no user hole"""
+    kind, v, k, holes, qs = parse_forms(tokens)
+    kk = k or default_k({'C': 'circle', 'E': 'ellipse', 'R': 'ring'}[kind], v + [0])
+    shrink = math.cos(math.pi / max(kk, 3)) * 0.97       # inscribed k-gon, 3 % for the planar edges
+    ering = None
+    if kind == 'E':
+        # an ellipse's k-gon (vertices at equal polar angles) cuts deep next to the tips of the major axis: judge only
+        # points inside the oracle's own k-gon shrunk by 10 % or outside it grown by 10 % (about the centre)
+        pts = [G.destination(v[0], v[1], 2 * math.pi / kk * i + math.radians(v[4]), ell_r(v[2], v[3], 2 * math.pi / kk * i)[0])
+               for i in range(kk, -1, -1)]
+        ering = [(_unwrap(v[0], p_[0]) - v[0], p_[1] - v[1]) for p_ in pts]
+    out = []
+    for q in qs:
+        d = G.gc_dist(v[0], v[1], q[0], q[1])
+        az = G.azimuth(v[0], v[1], q[0], q[1]) if d > 1e-3 else 0.0
+        if ering is not None:
+            rel = (_unwrap(v[0], q[0]) - v[0], q[1] - v[1])
+            hi = ell_r(v[2], v[3], math.radians(az - v[4]))[0]
+            deep = pip_exact([(0.9 * x, 0.9 * y) for x, y in ering], rel) == 'T'
+            far = pip_exact([(1.1 * x, 1.1 * y) for x, y in ering], rel) == 'F'
+            if not ((deep and d < hi * 0.999) or (far and d > hi * 1.001)):
+                out.append('?')
+                continue
+        if kind == 'C':
+            lo, hi = 0.0, v[2]
+        elif kind == 'E':
+            lo, hi = 0.0, ell_r(v[2], v[3], math.radians(az - v[4]))[0]
+        else:
+            lo, hi = v[2], v[3]
+        if ering is None and (lo * shrink * 0.999 < d < lo * 1.03 + 0.05 or hi * shrink < d < hi * 1.03 + 0.05):
+            out.append('?')
+            continue
+        ins = lo <= d < hi
+        if kind == 'R' and v[5] - v[4] < 360:
+            margin = 1.5 + math.degrees(math.pi / max(kk, 3)) * 0.0
+            da, db = G.circ_diff(az, v[4]), G.circ_diff(az, v[5])
+            if d < 1.0 or min(abs(da), abs(db)) < margin or (v[4] == 0 and abs(G.circ_diff(az, 0.0)) < margin):
+                out.append('?')
+                continue
+            ins = ins and v[4] <= az <= v[5]
+        ht = [hole_truth(hk, h, q, v[0]) for hk, h in holes]
+        if '?' in ht:
+            out.append('?')
+        else:
+            out.append('T' if ins and 'T' not in ht else 'F')
+    return ''.join(out)
+
+
+def why_forms(a, s):
+    """`s`: one truth character per query; `a`: one word of len(FORMS) characters per query"""
+    if is_err(a):
+        return 'raises'
+    if a.startswith('HOLES'):
+        return 'hole-count-differs-between-forms'
+    words = a.split()
+    if len(words) != len(s):
+        return 'spec-error'
+    for w, t in zip(words, s):
+        if t == '?':
+            continue
+        for form, ch in zip(FORMS, w):
+            if ch != '?' and ch != t:
+                return f'{form}-disagrees-with-definition'
+    return None
+
+
 def impl(line):
     from geostructures import GeoCircle, GeoEllipse, GeoRing
     cmd, *a = line.split()
     op = cmd.split('.', 1)[1]
+    if op == 'forms':
+        return impl_forms(a)
     v = floats(a)
     if op in ('circle', 'pipC'):
         mk, k, size = (lambda hs: GeoCircle(C(v[0], v[1]), v[2], holes=hs)), v[3], v[2]
@@ -452,6 +632,8 @@ def chord_bands(op, v):
 def spec(line):
     cmd, *t = line.split()
     op = cmd.split('.', 1)[1]
+    if op == 'forms':
+        return spec_forms(t)
     v = floats(t)
     if op in ('circle', 'ellipse', 'ring'):
         return line
@@ -519,6 +701,9 @@ def op_of(line):
 
 def finding_key(line, a, s):
     op = op_of(line)
+    if op == 'forms':
+        kind = {'C': 'GeoCircle', 'E': 'GeoEllipse', 'R': 'GeoRing'}[line.split()[1]]
+        return f'{kind}/with-holes:{why_forms(a, s)}'
     if op in ('circle', 'ellipse', 'ring'):
         return f'{SITE[op]}/{why_ring(a, s)}'
     if is_err(a):
@@ -537,6 +722,8 @@ def impl_for(_line):
 def spec_for(line):
     op = op_of(line)
     ok = ok_ring if op in ('circle', 'ellipse', 'ring') else (ok_rat if op == 'rat' else ok_flags)
+    if op == 'forms':
+        ok = lambda a, s: why_forms(a, s) is None  # noqa: E731
 
     def f(ln):
         s = spec(ln)
@@ -610,6 +797,98 @@ def gen_queries(rng, c, bounds_at, hs, nb, extra_az=()):
             for f in (0.5, 1 - 3e-6, 1 + 3e-6, 1.5):
                 qs.append(place((hl, ha), az, hr * f))
     return qs
+
+
+
+def gen_forms(rng):
+    """one curved shape with 1-3 user holes (circle / ellipse / box / polygon) on its solid part and query points well
+    inside each hole, just around it, on the solid part, in a ring's inner disc and outside"""
+    r0 = rng.random()
+    lat = rng.uniform(-70, 70)
+    lon = rng.uniform(-179, 179) if r0 > 0.15 else C(rng.choice([-1, 1]) * (180 - rng.uniform(0, 0.3)), 0).longitude
+    c = (lon, lat)
+    k = rng.choice([0, 0, 8, 12, 24, 36, 90])
+    kind = rng.choice('CERR')
+    size = log_uniform(rng, 50, 3e4)
+    if kind == 'C':
+        v = [lon, lat, size]
+        kk = k or 36
+    elif kind == 'E':
+        ratio = rng.uniform(1, 4)
+        k = rng.choice([0, 0, 36, 90, 12 * math.ceil(ratio)])
+        v = [lon, lat, size, size / ratio, rng.uniform(0, 360)]
+        kk = k or math.ceil(36 * ratio)
+    else:
+        inner = rng.choice([0.0, size * rng.uniform(0.1, 0.45)])
+        if rng.random() < 0.5:
+            amin, amax = 0.0, 360.0
+        else:
+            amin = rng.choice([0.0, rng.uniform(0, 250)])
+            amax = rng.choice([360.0, min(360.0, amin + rng.uniform(60, 300))])
+        v = [lon, lat, inner, size, amin, amax]
+        kk = k or max(math.ceil((amax - amin) / 10), 10)
+    shrink = math.cos(math.pi / kk) * 0.97
+
+    def solid_range(az):
+        if kind == 'C':
+            return 0.0, v[2] * shrink
+        if kind == 'E':
+            return 0.0, ell_r(v[2], v[3], math.radians(az - v[4]))[0] * shrink
+        return v[2] * 1.03 + 0.05, v[3] * shrink
+    full = kind != 'R' or (v[4], v[5]) == (0.0, 360.0)
+    span = 360.0 if full else v[5] - v[4]
+    nh = rng.choice([1, 1, 2, 3])
+    base = rng.uniform(0, 360)
+    holes, qs = [], []
+    for j in range(nh):
+        az = (base + 360.0 / nh * j) % 360 if full else v[4] + span * (j + 0.5) / nh
+        lo, hi = solid_range(az)
+        dh = lo + (hi - lo) * rng.uniform(0.45, 0.6)
+        width = min(hi - lo, math.radians(span / nh) * dh if not full or nh > 1 else hi - lo)
+        if not full:
+            width = min(width, math.radians(span / nh - 3.0) * dh)
+        rh = 0.16 * width
+        if rh < 1.0:
+            continue
+        hc = G.destination(lon, lat, math.radians(az), dh)
+        near_am = abs(abs(hc[0]) - 180) < 2 * math.degrees(rh / G.R_EARTH) / max(math.cos(math.radians(hc[1])), 0.1) + 1e-3
+        hk = rng.choice('cebp') if not near_am else 'c'
+        if hk == 'c':
+            h = [hc[0], hc[1], rh]
+        elif hk == 'e':
+            h = [hc[0], hc[1], rh, rh * rng.uniform(0.5, 1.0), rng.uniform(0, 360)]
+        elif hk == 'b':
+            dy = math.degrees(rh / G.R_EARTH) * 0.7
+            dx = dy / math.cos(math.radians(hc[1]))
+            h = [hc[0] - dx, hc[1] + dy, hc[0] + dx, hc[1] - dy]
+        else:
+            n = rng.randrange(3, 7)
+            t0 = rng.uniform(0, 360)
+            pts = [G.destination(hc[0], hc[1], math.radians(t0 - 360.0 / n * i), rh) for i in range(n)]
+            h = [x for p_ in pts for x in p_]
+        holes.append((hk, h))
+        # well inside the hole (centre and 4 points at 30 % of its size), and just around it on the solid part
+        qs.append(hc)
+        for t in (0, 90, 180, 270):
+            qs.append(G.destination(hc[0], hc[1], math.radians(t + az), 0.3 * rh * (0.5 if hk == 'e' else 1.0)))
+            qs.append(G.destination(hc[0], hc[1], math.radians(t + az), 1.6 * rh))
+    # the solid part, the inner disc, outside; for wedges also outside the angle range
+    for _ in range(10):
+        az = rng.uniform(0, 360) if full else v[4] + span * rng.uniform(0.05, 0.95)
+        lo, hi = solid_range(az)
+        qs.append(G.destination(lon, lat, math.radians(az), lo + (hi - lo) * rng.uniform(0.05, 0.95)))
+        qs.append(G.destination(lon, lat, math.radians(az), hi / shrink * rng.choice([1.15, 1.5, 2.5])))
+        if kind == 'R' and v[2] > 0:
+            qs.append(G.destination(lon, lat, math.radians(az), v[2] * shrink * rng.uniform(0.05, 0.9)))
+        if not full and span < 340:
+            qs.append(G.destination(lon, lat, math.radians(v[5] + (360 - span) * rng.uniform(0.1, 0.9)), (lo + hi) / 2))
+    qs.append(c)
+    head = f'{kind} {enc(*v, k)}'
+    hole_txt = ' | '.join(f'{hk} {enc(*h)}' for hk, h in holes)
+    qtxt = 'Q ' + enc(*[x for q in qs for x in (C(*q).longitude, C(*q).latitude)])
+    full_tag = '' if kind != 'R' else (':full' if full else ':wedge') + (':inner=0' if v[2] == 0 else '')
+    tag = f'{kind}{full_tag}:holes={"".join(sorted(hk for hk, _ in holes)) or "none"}:k={"default" if k == 0 else k}'
+    return ' | '.join(x for x in (f'cv.forms {head}', hole_txt, qtxt) if x), tag
 
 
 def check(run):
@@ -738,6 +1017,19 @@ def check(run):
     run.note(f'np-ring-vs-analytic: {judged} of {sum(len(o) for o in out[:60] if not is_err(o))} query points of the first 60 lines '
              f'lie outside the chord-error band and are judged')
 
+    # harness-only: curved shapes WITH user holes, every form must follow the definition (away from the drawn boundaries)
+    f_lines = []
+    for _ in range(run.scale(260, 6000)):
+        ln, tg = gen_forms(rng)
+        kinds[ln] = tg
+        f_lines.append(ln)
+    out = run.run_cases('np-forms-agree-with-holes', f_lines, impl, spec, model=False,
+                        spec_compare=lambda a, s_: why_forms(a, s_) is None, known_key=finding_key, tag=tagger('np-forms'))
+    sp = [spec(ln) for ln in f_lines[:80]]
+    run.note(f'np-forms-agree-with-holes: {len(f_lines)} holed shapes x {len(FORMS)} forms; first 80 lines: '
+             f'{sum(len(x) for x in sp)} query points, {sum(x.count("T") for x in sp)} on the solid part, '
+             f'{sum(x.count("F") for x in sp)} in holes / inner disc / outside, {sum(x.count("?") for x in sp)} too close to a drawn boundary')
+
     return run.finish(
         rule='a case is one protocol line: one shape (centre |lat|<=75 incl. lon within 0.5 deg of +-180, radii 10 m..100 km, '
              'axis ratio 1..10, any rotation, wedge ranges in [0,360], k in {default,3..360}) with either its generated ring '
@@ -752,6 +1044,11 @@ def check(run):
                      'vertex-on-curve is the distance to the curve (radial residual / sqrt(1 + (R\'/R)^2))',
                      'contains_* are judged outside a 1e-6 relative band around every boundary (ellipse: plus the effect of the '
                      '1e-5 deg bearing rounding; wedge sides: 2e-5 deg)',
+                     'np-forms-agree-with-holes (no theorem): circle / ellipse / full ring / wedge with 1-3 user holes (circle, ellipse, box, '
+                     'polygon) seen through contains_coordinate, to_polygon() and to_polygon(k=) membership, exact even-odd on linear_rings(k) '
+                     'and on edges(k), copy() and its polygon form, plus the number of hole rings in every form; query points well inside each '
+                     'hole, just around it, on the solid part, in the inner disc, outside the curve and outside the angle range; judged '
+                     'where the oracle places the point clear of every drawn (k-gon) boundary',
                      'np-ring-vs-analytic (no theorem): exact even-odd test on the generated ring vs the oracle\'s analytic truth, '
                      'outside 1.5x the measured chord error (+5 cm) of an oracle-built ring'],
         checker_cmd='cd lean && lake build GeoVerif.Props.C03 && lake env lean .lake/audit/C03.lean  (#print axioms)')
